@@ -197,7 +197,7 @@ def run_verus(name, text, workdir, threads=8, rlimit=None):
     tmo = int(os.environ.get('VEKVERIF_VERUS_TIMEOUT', '1500'))
     try:
         pr = subprocess.Popen(cmd, stdout=subprocess.PIPE, stderr=subprocess.PIPE, text=True, cwd=workdir,
-                              start_new_session=True)
+                              start_new_session=True, env=dict(os.environ, RUST_MIN_STACK='1073741824'))
         out, err = pr.communicate(timeout=tmo)
         rc = pr.returncode
     except subprocess.TimeoutExpired:
